@@ -51,6 +51,27 @@ def _add_field_reference_to_dependencies(reference, dependencies, name):
     dependencies[name] |= {ir_util.hashable_form_of_reference(reference.path[0])}
 
 
+def _add_type_argument_references_to_dependencies(
+    atomic_type, dependencies, name, source_file_name, errors
+):
+    """Adds the References in the arguments of a parameterized type."""
+    # The main Reference traversal skips AtomicType, because the type's own name
+    # is not a dependency; constants in its arguments are.
+    for argument in atomic_type.runtime_parameter:
+        traverse_ir.fast_traverse_node_top_down(
+            argument,
+            [ir_data.Reference],
+            _add_reference_to_dependencies,
+            skip_descendants_of={ir_data.AtomicType, ir_data.FieldReference},
+            parameters={
+                "dependencies": dependencies,
+                "name": name,
+                "source_file_name": source_file_name,
+                "errors": errors,
+            },
+        )
+
+
 def _add_name_to_dependencies(proto, dependencies):
     name = ir_util.hashable_form_of_reference(proto.name)
     dependencies.setdefault(name, set())
@@ -72,6 +93,21 @@ def _find_dependencies(ir):
             ir_data.Attribute,
             ir_data.FieldReference,
         },
+        incidental_actions={
+            ir_data.Field: _add_name_to_dependencies,
+            ir_data.EnumValue: _add_name_to_dependencies,
+            ir_data.RuntimeParameter: _add_name_to_dependencies,
+        },
+        parameters={
+            "dependencies": dependencies,
+            "errors": errors,
+        },
+    )
+    traverse_ir.fast_traverse_ir_top_down(
+        ir,
+        [ir_data.AtomicType],
+        _add_type_argument_references_to_dependencies,
+        skip_descendants_of={ir_data.Attribute},
         incidental_actions={
             ir_data.Field: _add_name_to_dependencies,
             ir_data.EnumValue: _add_name_to_dependencies,
